@@ -38,8 +38,9 @@ def links_of_members(U, members):
     return out
 
 
-def copy_obs(cw):
-    """Structure of a copy by ids and identities of linked outside objects."""
+def copy_obs(cw, as_copy_of=None):
+    """Structure of a WBS by ids and identities of linked outside objects. With as_copy_of (a clone of cw) the mirror
+    entries that the clone added to outside tasks are ignored, so that a source and its clone compare equal."""
     out = []
     mem = {id(t) for t in cw.tasks}
     for t in cw.tasks:
@@ -236,6 +237,15 @@ def check_copy(U, a, enc, hist, sel, mode, acc):
         mutate(kind, X, [U.tasks[i] for i in a.members(0)])
         if copy_obs(c3) != before:
             V('source-change-shows-on-copy', kind, f'after {kind} on the source the copy differs')
+        if sel is None:
+            # a second clone is a copy of the source as it is NOW (nothing remembered from the first call)
+            try:
+                c4 = X.clone()
+                acc.count('reclone_after_source_change')
+                if copy_obs(c4) != copy_obs(X, as_copy_of=c4):
+                    V('second-clone-not-faithful', kind, f'after {kind} on the source a new clone does not match the changed source')
+            except Exception as ex:  # noqa
+                V('second-clone-raised-' + type(ex).__name__, kind, f'clone() after {kind} raised {ex}')
     U.restore(enc)
     if len(selected) < len(members) or id_clash:
         acc.count('nontrivial')
